@@ -25,9 +25,9 @@ func H_C16_quoted_literal() {
 		s = string([]byte{byte(hi<<4 | lo)})
 		lit = `"\x` + hexd[hi:hi+1] + hexd[lo:lo+1] + `"`
 	case 3: // strings with a leading slash, quotes, backslashes, unicode, control characters
-		c := vChoose(8)
-		s = []string{"/usr/bin", "/", "a\"b", "a\\b", "é١", "\t\n", "", "/a~1b"}[c]
-		lit = []string{`"/usr/bin"`, `"/"`, `"a\"b"`, `"a\\b"`, `"é١"`, `"\t\n"`, `""`, `"/a~1b"`}[c]
+		c := vChoose(12)
+		s = []string{"/usr/bin", "/", "a\"b", "a\\b", "é١", "\t\n", "", "/a~1b", "a\uFFFDb", "\uFFFD", "\uFFFC\U0010FFFF", "caf\uFFFD"}[c]
+		lit = []string{`"/usr/bin"`, `"/"`, `"a\"b"`, `"a\\b"`, `"é١"`, `"\t\n"`, `""`, `"/a~1b"`, "\"a\uFFFDb\"", "`\uFFFD`", "\"\uFFFC\U0010FFFF\"", `"caf\ufffd"`}[c]
 	default: // leading slash + one symbolic pointer-safe byte
 		b := vStringN(1)
 		vAssume(b[0] >= 'a' && b[0] <= 'z' || b[0] >= '0' && b[0] <= '9' || b[0] == '.' || b[0] == '-')
